@@ -434,6 +434,21 @@ func runC09(r *mc.Run) {
 			}
 		}
 	}
+	// auth-data and chain lengths whose SUM walks (in steps smaller than any fixed-size part of the layout) across
+	// 65536 and 131072 less the fixed parts: every nested length then passes through each residue window mod 2^16
+	for _, lo := range []int{64000, 129500} {
+		for t := lo; t < lo+2700; t += 100 {
+			ms = append(ms, mcase{32, t - 32, 0, "pattern"}, mcase{1000, t - 1000, 0, "pattern"}, mcase{0, t, 0, "pattern"})
+			if t <= 65535 {
+				ms = append(ms, mcase{t, 0, 0, "pattern"})
+			} else {
+				ms = append(ms, mcase{65535, t - 65535, 0, "pattern"})
+				if t-65535 <= 65535 {
+					ms = append(ms, mcase{t - 65535, 65535, 0, "pattern"})
+				}
+			}
+		}
+	}
 	done := r.Parallel(len(ms), func(i int) {
 		m := ms[i]
 		id := fmt.Sprintf("msg/auth=%d,chain=%d,extra=%d,content=%s", m.a, m.c, m.e, m.content)
